@@ -63,6 +63,25 @@ CLAIMS["C03"] = (
     "DESIGN.md §3 C03",
 )
 
+CLAIMS["C09"] = (
+    "table extraction of the collation and <=>/relational matrices, order-theoretic checks (antisymmetry, transitivity via documented rank), abstract kind evaluation of kernels, mirror-shape check of comparator pairs, AST decision extraction of the sort verb's flag parser",
+    "Decides what sorting needs from its comparison functions: the collation matrix is antisymmetric, total and in the documented kind order with the two mixed classes; kernels cannot abort in the cells they occupy; descending comparators mirror ascending ones; <=> returns only ints and is antisymmetric on constant cells, relational operators return only booleans; each sort flag spelling appends the comparator family/polarity it names with one comparator per field; key-less records are set aside. It does not decide that a run is an ordered permutation, stability, or natural-order details.",
+    "Trusts go/types+go/ssa; the documented collation order and the flag table of sort are frozen in checker/c09.go.",
+    "DESIGN.md §3 C09",
+)
+CLAIMS["C10"] = (
+    "unchecked-result rule (guard dominance, merged ok-phis, assertions) over all key-selector call sites; field-type inventory of verb state; call-shape check of accumulators",
+    "Narrow claim: decides three structural clauses for the aggregating verbs — records lacking a group-by/value field are left out (every key selector's ok result is branched on, values used only on the true edge); grouping state is ordered (no verb iterates a built-in map field into output); sum/min/max accumulators combine through the int-preserving BIFs; whole-record distinctness keys include field names. Every numerical result (sums, variances, percentiles, windows, ties) is NOT decided.",
+    "Trusts go/ssa. Frozen exceptions (per-element nil handling in step, join bucket keeper) with reasons in checker/c10.go.",
+    "DESIGN.md §3 C10",
+)
+CLAIMS["C11"] = (
+    "effect analysis (structural mutators, value stores, record constructors) over the selecting verbs; path rule on the filter emit decision; who-may-originate-done scan; per-record state reset check",
+    "Decides 'only records that were in the input, unchanged' as an effect property for all 15 selecting verbs, filter's polarity (XOR with -x, absent=false, other non-boolean=error, no drop before the XOR), that only the ungrouped head originates the stop-reading signal, that grouped variants skip key-less records, and that the filter result is reset per record. It does not decide which records are selected.",
+    "Trusts go/ssa; the list of selecting verbs/modes and of legitimate done-originators is frozen in checker/c11.go.",
+    "DESIGN.md §3 C11",
+)
+
 NOT_APPLICABLE = {
     "C13": "Join pairing, ordering and unpaired accounting are relational identities over run-time key values and bucket contents; no clause is a shape fact visible to static analysis (the shared protocol facts are reported under C04/C10/C17).",
 }
